@@ -1,5 +1,301 @@
-import Bkl
+/-
+  C05 — "Output round-trips in every format: what bkl writes reads back unchanged."
+
+  The three third-party single-document codecs (yaml.v3, go-toml, encoding/json) are a
+  *parameter* `c : Codec` of the model (Bkl/Stream.lean).  What is proved here is that the
+  multi-document framing bkl puts around them (json.go / yaml.go / toml.go) loses nothing,
+  *provided* the codec meets `CodecOK c isSep dom` (BklProofs/Lemmas/Stream.lean): on its domain
+  `dom`, `c.enc v` succeeds with text that contains no separator line and at least one non-blank
+  line, and `c.dec` of that text gives `v` back.  Whether the real codecs meet `CodecOK` is what
+  the differential run checks.
+
+  * `C05_splitAt_join`            the framing lemma: splitting the joined blocks gives the blocks
+  * `C05_yaml_stream_rt`          YAML: a non-empty stream of non-null documents round-trips
+  * `C05_yaml_stream_rt_inner_null`  … also with null documents anywhere but in first position
+  * `C05_toml_stream_rt`          TOML: same (non-null documents)
+  * `C05_toml_stream_rt_null`     … also with null documents when `c.dec [] = null`
+  * `C05_json_stream_rt`          JSON lines: every stream (also the empty one) round-trips
+  * `C05_leading_null_dropped`, `C05_leading_null_counterexample`
+                                  a leading null YAML document does NOT survive the framing
+  * `C05_empty_stream_counterexample`  nor does the empty stream (it reads back as one null)
+  * `C05_outputs_nonnull`, `C05_outputDocuments_nonnull`
+                                  … which is harmless, because `Output` never hands a null to a codec
+  * `C05_format_choice*`, `C05_cli_format_supported`, `C05_cli_unknown_format`, `C05_alias`
+                                  which format is written
+
+  Helper lemmas (and the definitions `joinWith`, `CodecOK`, `blankLine`, `streamBody`,
+  `toyCodec`, `finalFormat`, `cliFinish`, `extOfChars`, `lastCompChars`) are in
+  BklProofs/Lemmas/Stream.lean.
+-/
+import BklProofs.Lemmas.Stream
 namespace Bkl
-/-- placeholder until the property theorems land -/
-theorem C05_placeholder : validate (.int 1) = .ok () := by simp [validate]; rfl
+
+/-! ## the framing lemma -/
+
+/-- For blocks `b₁ … bₙ` (n ≥ 1) none of which contains a separator line:
+    `splitAt isSep (b₁ ++ [sep] ++ b₂ ++ … ++ [sep] ++ bₙ) = [b₁, …, bₙ]`. -/
+theorem C05_splitAt_join (isSep : String → Bool) (sep : String) (hs : isSep sep = true)
+    (blocks : List Lines) (hne : blocks ≠ [])
+    (hfree : ∀ b ∈ blocks, ∀ l ∈ b, isSep l = false) :
+    splitAt isSep (joinWith sep blocks) = blocks := by
+  cases blocks with
+  | nil => exact absurd rfl hne
+  | cons b bs => exact splitAt_joinWith isSep sep hs b bs hfree
+
+/-- non-vacuity, and what goes wrong for `n = 0`: the empty text is ONE (empty) part -/
+example : splitAt sepYaml (joinWith "---" [["a: 1"], [], ["b: 2", "c: 3"]])
+    = [["a: 1"], [], ["b: 2", "c: 3"]] := by decide
+example : splitAt sepYaml (joinWith "---" []) = [[]] := by decide
+
+/-- the number of parts is the number of separator lines plus one -/
+theorem C05_splitAt_length (isSep : String → Bool) (t : Lines) :
+    (splitAt isSep t).length = (t.filter isSep).length + 1 := splitAt_length isSep t
+
+/-! ## YAML -/
+
+/-- A codec that is OK for `sepYaml` on `dom`, a NON-EMPTY list of non-null values in `dom`:
+    the stream is written, and reading the written text gives the values back. -/
+theorem C05_yaml_stream_rt (c : Codec) (dom : Val → Prop) (ok : CodecOK c sepYaml dom)
+    (vs : List Val) (hne : vs ≠ []) (hnn : ∀ v ∈ vs, v ≠ .null) (hd : ∀ v ∈ vs, dom v) :
+    ∃ text, yamlMarshalStream c vs = .ok text ∧ yamlUnmarshalStream c text = .ok vs := by
+  cases vs with
+  | nil => exact absurd rfl hne
+  | cons v vs =>
+    exact yaml_rt_general c dom ok v vs (hnn v List.mem_cons_self) (fun w hw _ => hd w hw)
+
+/-- the same as one equation in the `R` monad -/
+theorem C05_yaml_stream_rt' (c : Codec) (dom : Val → Prop) (ok : CodecOK c sepYaml dom)
+    (vs : List Val) (hne : vs ≠ []) (hnn : ∀ v ∈ vs, v ≠ .null) (hd : ∀ v ∈ vs, dom v) :
+    (do let t ← yamlMarshalStream c vs; yamlUnmarshalStream c t) = .ok vs := by
+  obtain ⟨text, h1, h2⟩ := C05_yaml_stream_rt c dom ok vs hne hnn hd
+  rw [h1]; exact h2
+
+/-- null documents are fine everywhere except in first position (they are written as a bare
+    `---` and an empty part reads back as null) -/
+theorem C05_yaml_stream_rt_inner_null (c : Codec) (dom : Val → Prop) (ok : CodecOK c sepYaml dom)
+    (v : Val) (vs : List Val) (hv : v ≠ .null) (hd : ∀ w ∈ v :: vs, w ≠ .null → dom w) :
+    ∃ text, yamlMarshalStream c (v :: vs) = .ok text ∧
+      yamlUnmarshalStream c text = .ok (v :: vs) :=
+  yaml_rt_general c dom ok v vs hv hd
+
+/-- non-vacuity: the toy codec (integers as decimal text) is OK for YAML and for TOML on all
+    integers -/
+example : CodecOK toyCodec sepYaml toyDom := toyCodec_ok_yaml
+example : CodecOK toyCodec sepToml toyDom := toyCodec_ok_toml
+example : ∃ text, yamlMarshalStream toyCodec [.int 1, .int (-2)] = .ok text ∧
+    yamlUnmarshalStream toyCodec text = .ok [.int 1, .int (-2)] :=
+  C05_yaml_stream_rt toyCodec toyDom toyCodec_ok_yaml _ (by simp) (by simp)
+    (by simp [toyDom])
+example : yamlMarshalStream toyCodec [.int 1, .null, .int (-2)] = .ok ["1", "---", "---", "-2"] := by
+  decide
+example : ∃ text, yamlMarshalStream toyCodec [.int 1, .null, .int (-2)] = .ok text ∧
+    yamlUnmarshalStream toyCodec text = .ok [.int 1, .null, .int (-2)] :=
+  C05_yaml_stream_rt_inner_null toyCodec toyDom toyCodec_ok_yaml _ _ (by simp)
+    (by simp [toyDom])
+
+/-! ## TOML -/
+
+theorem C05_toml_stream_rt (c : Codec) (dom : Val → Prop) (ok : CodecOK c sepToml dom)
+    (vs : List Val) (hne : vs ≠ []) (hnn : ∀ v ∈ vs, v ≠ .null) (hd : ∀ v ∈ vs, dom v) :
+    ∃ text, tomlMarshalStream c vs = .ok text ∧ tomlUnmarshalStream c text = .ok vs := by
+  cases vs with
+  | nil => exact absurd rfl hne
+  | cons v vs =>
+    exact toml_rt_general c dom ok v vs (fun w hw _ => hd w hw)
+      (fun hm => absurd rfl (hnn _ hm))
+
+theorem C05_toml_stream_rt' (c : Codec) (dom : Val → Prop) (ok : CodecOK c sepToml dom)
+    (vs : List Val) (hne : vs ≠ []) (hnn : ∀ v ∈ vs, v ≠ .null) (hd : ∀ v ∈ vs, dom v) :
+    (do let t ← tomlMarshalStream c vs; tomlUnmarshalStream c t) = .ok vs := by
+  obtain ⟨text, h1, h2⟩ := C05_toml_stream_rt c dom ok vs hne hnn hd
+  rw [h1]; exact h2
+
+/-- TOML writes a null document as nothing, in every position; it reads back as null iff the
+    codec decodes the empty text to null -/
+theorem C05_toml_stream_rt_null (c : Codec) (dom : Val → Prop) (ok : CodecOK c sepToml dom)
+    (hnull : c.dec [] = .ok .null)
+    (vs : List Val) (hne : vs ≠ []) (hd : ∀ v ∈ vs, v ≠ .null → dom v) :
+    ∃ text, tomlMarshalStream c vs = .ok text ∧ tomlUnmarshalStream c text = .ok vs := by
+  cases vs with
+  | nil => exact absurd rfl hne
+  | cons v vs => exact toml_rt_general c dom ok v vs hd (fun _ => hnull)
+
+example : toyCodec.dec [] = .ok .null := rfl
+example : ∃ text, tomlMarshalStream toyCodec [.null, .int 10, .null] = .ok text ∧
+    tomlUnmarshalStream toyCodec text = .ok [.null, .int 10, .null] :=
+  C05_toml_stream_rt_null toyCodec toyDom toyCodec_ok_toml rfl _ (by simp) (by simp [toyDom])
+example : tomlMarshalStream toyCodec [.null, .int 10, .null] = .ok ["---", "10", "---"] := by decide
+example : ∃ text, tomlMarshalStream toyCodec [.int 10, .int 0] = .ok text ∧
+    tomlUnmarshalStream toyCodec text = .ok [.int 10, .int 0] :=
+  C05_toml_stream_rt toyCodec toyDom toyCodec_ok_toml _ (by simp) (by simp)
+    (by simp [toyDom])
+
+/-! ## JSON (compact writer: one value per line) -/
+
+/-- a codec whose `enc v` is exactly one line `l` with `dec [l] = v`: every stream, including
+    the empty one, round-trips -/
+theorem C05_json_stream_rt (c : Codec) (dom : Val → Prop)
+    (ok : ∀ v, dom v → ∃ l, c.enc v = .ok [l] ∧ c.dec [l] = .ok v)
+    (vs : List Val) (hd : ∀ v ∈ vs, dom v) :
+    (do let t ← jsonMarshalStream c vs; jsonUnmarshalLines c t) = .ok vs := by
+  obtain ⟨text, h1, h2⟩ := json_rt c dom ok vs hd
+  rw [h1]; exact h2
+
+example : ∀ v, toyDom v → ∃ l, toyCodec.enc v = .ok [l] ∧ toyCodec.dec [l] = .ok v :=
+  toyCodec_ok_json
+example : (do let t ← jsonMarshalStream toyCodec []; jsonUnmarshalLines toyCodec t) = .ok [] :=
+  C05_json_stream_rt toyCodec toyDom toyCodec_ok_json [] (by simp)
+
+/-! ## what does NOT round-trip through the YAML framing -/
+
+/-- a null document in front of a non-null one leaves no trace in the text -/
+theorem C05_leading_null_dropped (c : Codec) (v : Val) (hv : v ≠ .null) (vs : List Val) :
+    yamlMarshalStream c (.null :: v :: vs) = yamlMarshalStream c (v :: vs) :=
+  yamlMarshalStream_null_cons c v hv vs
+
+/-- … so with an OK codec the stream `[null, v]` reads back as `[v]` -/
+theorem C05_leading_null_lost (c : Codec) (dom : Val → Prop) (ok : CodecOK c sepYaml dom)
+    (v : Val) (hv : v ≠ .null) (hd : dom v) :
+    (do let t ← yamlMarshalStream c [.null, v]; yamlUnmarshalStream c t) = .ok [v] := by
+  rw [C05_leading_null_dropped c v hv []]
+  exact C05_yaml_stream_rt' c dom ok [v] (by simp) (by simpa using hv) (by simpa using hd)
+
+/-- concrete instance with the toy codec: `[null, 1]` is written as the single line `1` and
+    reads back as `[1]` -/
+theorem C05_leading_null_counterexample :
+    yamlMarshalStream toyCodec [.null, .int 1] = .ok ["1"] ∧
+    (do let t ← yamlMarshalStream toyCodec [.null, .int 1]; yamlUnmarshalStream toyCodec t)
+      = .ok [.int 1] ∧
+    (do let t ← yamlMarshalStream toyCodec [.null, .int 1]; yamlUnmarshalStream toyCodec t)
+      ≠ .ok [.null, .int 1] := by
+  have h := C05_leading_null_lost toyCodec toyDom toyCodec_ok_yaml (.int 1) (by simp) ⟨1, rfl⟩
+  refine ⟨by decide, h, ?_⟩
+  rw [h]
+  intro e
+  injection e with e
+  injection e with e1 _
+  cases e1
+
+/-- the empty stream is written as the empty text, which reads back as ONE null document
+    (for every codec) -/
+theorem C05_empty_stream_counterexample (c : Codec) :
+    (do let t ← yamlMarshalStream c []; yamlUnmarshalStream c t) = .ok [.null] := rfl
+
+/-! ## everything `Output` hands to a codec is non-null -/
+
+theorem C05_outputs_nonnull (ds outs : List Val) (h : emit ds = .ok outs) :
+    ∀ o ∈ outs, o ≠ .null := emit_nonnull ds outs h
+
+theorem C05_outputDocuments_nonnull (docs : List Val) (env : Vars) (outs : List Val)
+    (h : outputDocuments docs env = .ok outs) : ∀ o ∈ outs, o ≠ .null :=
+  outputDocuments_nonnull docs env outs h
+
+/-- non-vacuity: a null document and a hidden one are dropped, the others are emitted -/
+example : emit [.null, .map [("a", .int 1)], .map [("$output", .bool false)], .int 3]
+    = .ok [.map [("a", .int 1)], .int 3] := by decide
+
+/-- hence: the non-empty output of a successful evaluation round-trips through YAML (and TOML)
+    for a codec that is OK on what was emitted -/
+theorem C05_output_yaml_rt (c : Codec) (dom : Val → Prop) (ok : CodecOK c sepYaml dom)
+    (docs : List Val) (env : Vars) (outs : List Val)
+    (h : outputDocuments docs env = .ok outs) (hne : outs ≠ []) (hd : ∀ o ∈ outs, dom o) :
+    (do let t ← yamlMarshalStream c outs; yamlUnmarshalStream c t) = .ok outs :=
+  C05_yaml_stream_rt' c dom ok outs hne (C05_outputDocuments_nonnull docs env outs h) hd
+
+/-- non-vacuity: an evaluation with two output documents -/
+example : outputDocuments [.map [("a", .int 1)], .null, .int 3] []
+    = .ok [.map [("a", .int 1)], .int 3] := by decide
+
+theorem C05_output_toml_rt (c : Codec) (dom : Val → Prop) (ok : CodecOK c sepToml dom)
+    (docs : List Val) (env : Vars) (outs : List Val)
+    (h : outputDocuments docs env = .ok outs) (hne : outs ≠ []) (hd : ∀ o ∈ outs, dom o) :
+    (do let t ← tomlMarshalStream c outs; tomlUnmarshalStream c t) = .ok outs :=
+  C05_toml_stream_rt' c dom ok outs hne (C05_outputDocuments_nonnull docs env outs h) hd
+
+/-! ## which format is written -/
+
+/-- `-f` wins; without `-f` and `-o` it is the first input's (possibly virtual) extension;
+    without `-f` and with `-o` it is the extension of the last component of the output path -/
+theorem C05_format_choice (opts : CliOpts) (x : String) :
+    (∀ f, opts.format = some f → chooseFormat opts x = f) ∧
+    (opts.format = none → opts.outPath = none → chooseFormat opts x = x) ∧
+    (∀ o, opts.format = none → opts.outPath = some o →
+      chooseFormat opts x = extOf ((splitPath o).getLastD "")) := by
+  refine ⟨?_, ?_, ?_⟩
+  · intro f hf; simp only [chooseFormat, hf]
+  · intro hf ho; simp only [chooseFormat, hf, ho]
+  · intro o hf ho; simp only [chooseFormat, hf, ho]
+
+example : chooseFormat { format := some "toml", outPath := some "x.json" } "yaml" = "toml" :=
+  (C05_format_choice _ _).1 "toml" rfl
+example : chooseFormat {} "yaml" = "yaml" := (C05_format_choice _ _).2.1 rfl rfl
+
+/-- `-o out.toml` → toml -/
+theorem C05_format_choice_out_toml (x : String) :
+    chooseFormat { outPath := some "out.toml" } x = "toml" := by
+  have : "out.toml" = String.ofList ['o','u','t','.','t','o','m','l'] := by decide
+  rw [chooseFormat_outPath_chars _ _ _ rfl (by rw [← this])]
+  decide
+
+/-- `-o dir/out.json` → json -/
+theorem C05_format_choice_dir_out_json (x : String) :
+    chooseFormat { outPath := some "dir/out.json" } x = "json" := by
+  have : "dir/out.json" = String.ofList ['d','i','r','/','o','u','t','.','j','s','o','n'] := by
+    decide
+  rw [chooseFormat_outPath_chars _ _ _ rfl (by rw [← this])]
+  decide
+
+/-- a dot in a directory name is not an extension: `-o a.d/out` → "" (→ json-pretty) -/
+theorem C05_format_choice_no_ext (x : String) :
+    chooseFormat { outPath := some "a.d/out" } x = "" ∧
+    finalFormat { outPath := some "a.d/out" } x = "json-pretty" := by
+  have : "a.d/out" = String.ofList ['a','.','d','/','o','u','t'] := by decide
+  have h : chooseFormat { outPath := some "a.d/out" } x = "" := by
+    rw [chooseFormat_outPath_chars _ _ _ rfl (by rw [← this])]
+    decide
+  exact ⟨h, by rw [finalFormat, h]; decide⟩
+
+/-- a successful `cliRun` reports the chosen format (`json-pretty` when that is empty), and
+    that format passed the `supportedExts.contains` test -/
+theorem C05_cli_format_supported (fs : FS) (cwd : Comps) (env : Vars) (opts : CliOpts)
+    (res : CliResult) (h : cliRun fs cwd env opts = .ok res) :
+    (∃ x, res.format = finalFormat opts x) ∧ supportedExts.contains res.format = true := by
+  obtain ⟨s, hs⟩ := cliRun_ok h
+  obtain ⟨h1, h2⟩ := cliFinish_ok hs
+  exact ⟨⟨_, h1⟩, h2⟩
+
+/-- a format that fails the `supportedExts.contains` test is never written: no run succeeds, … -/
+theorem C05_cli_unknown_format_never_ok (fs : FS) (cwd : Comps) (env : Vars) (opts : CliOpts)
+    (hbad : ∀ x, supportedExts.contains (finalFormat opts x) = false) (res : CliResult) :
+    cliRun fs cwd env opts ≠ .ok res := by
+  intro h
+  obtain ⟨⟨x, hx⟩, h2⟩ := C05_cli_format_supported fs cwd env opts res h
+  rw [hx, hbad x] at h2
+  cases h2
+
+/-- … and when the inputs load (here: there are none) the error is `unknownFormat` -/
+theorem C05_cli_unknown_format (fs : FS) (cwd : Comps) (env : Vars) (opts : CliOpts)
+    (hr : opts.rootPath = none) (hi : opts.inputs = [])
+    (hbad : supportedExts.contains (finalFormat opts "") = false) :
+    cliRun fs cwd env opts = .error .unknownFormat := by
+  rw [cliRun_no_inputs fs cwd env opts hr hi]
+  exact cliFinish_unknown hbad
+
+example : supportedExts.contains (finalFormat { format := some "xml" } "") = false := by decide
+example (fs : FS) (cwd : Comps) (env : Vars) :
+    cliRun fs cwd env { format := some "xml" } = .error .unknownFormat :=
+  C05_cli_unknown_format fs cwd env _ rfl rfl (by decide)
+
+/-- the format table (formats.go): `yml` ≡ `yaml` and `jsonl` ≡ `json` share their codecs in Go;
+    in the model all six names pass the format test and nothing else does -/
+theorem C05_alias :
+    supportedExts = ["json", "json-pretty", "jsonl", "toml", "yaml", "yml"] ∧
+    (∀ f, supportedExts.contains f = true ↔
+      f = "json" ∨ f = "json-pretty" ∨ f = "jsonl" ∨ f = "toml" ∨ f = "yaml" ∨ f = "yml") ∧
+    supportedExts.contains "yml" = supportedExts.contains "yaml" ∧
+    supportedExts.contains "jsonl" = supportedExts.contains "json" := by
+  refine ⟨rfl, ?_, by decide, by decide⟩
+  intro f
+  simp [supportedExts]
+
 end Bkl
